@@ -4,7 +4,7 @@
    Goit builds a regexp *string* from each line and hands it to regexp.
    Modelling that for arbitrary lines would need an RE2 parser in Coq; the
    model covers lines over the alphabet for which the string Goit builds has
-   an obvious reading: letters, digits, '-', '_', '/', '.', '*'.
+   an obvious reading: letters, digits, '-', '_', '/', space, ',', '=', '@', '%', '~', '!', '.', '*'.
    Other lines make [ign_line] return None (outside the modelled domain). *)
 From Coq Require Import Strings.String Strings.Byte.
 From Coq Require Import List Bool NArith.
@@ -14,7 +14,9 @@ Import ListNotations.
 Definition is_inert (c : byte) : bool :=
   let n := bN c in
   (N.leb 48 n && N.leb n 57) || (N.leb 65 n && N.leb n 90) || (N.leb 97 n && N.leb n 122)
-  || N.eqb n 45 || N.eqb n 95 || N.eqb n 47.
+  || N.eqb n 45 || N.eqb n 95 || N.eqb n 47
+  || N.eqb n 32 || N.eqb n 44 || N.eqb n 61 || N.eqb n 64 || N.eqb n 37 || N.eqb n 126 || N.eqb n 33.
+(* also literal in Go's RE2: space , = @ % ~ ! *)
 
 (* Every pattern is compiled as "(?s)(^|/)(?:%s)$": with the `s` flag '.'
    matches every byte, '\n' included ([RAny]); `^`/`$` are begin/end of text.
